@@ -118,7 +118,7 @@ def run_plan(plan: dict) -> RunResult:
     cfg = plan["cfg"]
     stopped = []
 
-    def violate(kind, **d):
+    def violate(kind, /, **d):
         if not stopped:
             res.violate(kind, **d)
             stopped.append(1)
